@@ -20,7 +20,11 @@ RULE = ("abstract cues (1-3 per document, 1-3 lines each, each line 1-4 runs of 
         "per line after trimming and collapsing whitespace. Non-trivial: the document contains "
         "an entity or look-alike, a source-line wrap, or a tag. "
         'In a quarter of the cases the reader object has read another document before; XML '
-        'comments are placed after runs in DFXP / SAMI. ')
+        'comments are placed after runs in DFXP / SAMI. '
+        "Runs are separated by nothing, a blank or a source-line wrap (with / without blanks or "
+        "tabs before the line end); HTML named entities come from the full HTML 4 table (252 "
+        "names, incl. pairs that differ only in case); SRT / WebVTT / MicroDVD lines end in LF, "
+        "CRLF or bare CR. ")
 ASSUMPTIONS = [
     "raw '<' or '&' is never emitted in XML/HTML/WebVTT text (documents are well-formed)",
     "texts avoid '<html' and 'no closed captioning available' (SAMIReader rejects those by "
@@ -30,7 +34,9 @@ ASSUMPTIONS = [
 
 _TEXT_ATOMS = gen.META + gen.META_PIPE + ["a b", "\u00e9", "a\u00a0b", "\u00a9 2020", "x y z", "&lt;b&gt;", "&amp;lt;",
                                           "&#60;b&#62;", "AT&T", "1 < 2 > 0", "a;>b", "<bar>",
-                                          "<input>", "tom & jerry", "</v>", "<v>", "<u2>"]
+                                          "<input>", "tom & jerry", "</v>", "<v>", "<u2>",
+                                          "\u00c9mile \u00c7a \u00d1u", "\u03a9 \u03c9", "\u2020 \u2021",
+                                          "5\u2032 3\u2033", "\u00c0 \u00e0 \u00d6 \u00f6", "\u20ac 5 \u00bd"]
 
 
 def _authored(pipe=True):
@@ -43,8 +49,10 @@ def _authored(pipe=True):
 
 _XML_NAMED = {"<": "lt", ">": "gt", "&": "amp", '"': "quot", "'": "apos"}
 _HTML_NAMED = dict(_XML_NAMED)
-_HTML_NAMED.update({"\u00a9": "copy", "\u00e9": "eacute", "\u00a0": "nbsp", "\u00ae": "reg",
-                    "\u00f1": "ntilde"})
+# the HTML 4 entity set (252 names; names differing only in case - Eacute / eacute, Omega / omega,
+# Dagger / dagger, Prime / prime - denote different characters)
+from html.entities import codepoint2name as _CP2NAME
+_HTML_NAMED.update({chr(cp): name for cp, name in _CP2NAME.items() if chr(cp) not in _HTML_NAMED})
 
 
 def _numeric(ch, draw):
@@ -122,10 +130,14 @@ def dfxp_strategy(tier):
             lines = []
             for _ in range(draw(st.integers(1, 3))):
                 runs = draw(st.lists(run(), min_size=1, max_size=3))
-                seps = [draw(st.sampled_from(["", " ", " "])) for _ in runs]
+                # between runs: nothing, a blank, or a source-line wrap (with or without blanks /
+                # tabs before the line end) - all whitespace, displayed as one space
+                seps = [draw(st.sampled_from(["", " ", " ", "", " ", " ", "", " ", " ", "", " ", " ", "", " ", " ",
+                                              " \n      ", "\t\n\t", " \r\n    ", "\n      "])) for _ in runs]
                 lines.append({"runs": runs, "seps": seps})
             cues.append({"lines": lines, "br": draw(st.sampled_from(["<br/>", "<br />", "<br></br>", "<br/>\n        "])),
-                         "pretty": draw(st.booleans())})
+                         "pretty": draw(st.booleans()),
+                         "lead": draw(st.sampled_from(["\n        ", "\n        ", " \n        ", "\t\n  "]))})
         return {"fmt": "dfxp", "reuse": draw(st.integers(0, 3)) == 0, "cues": cues}
     return build()
 
@@ -186,7 +198,7 @@ def check_dfxp(case, rec):
     for i, c in enumerate(case["cues"]):
         inner = c["br"].join(_line_enc(l) for l in c["lines"])
         if c["pretty"]:
-            inner = "\n        " + inner + "\n      "
+            inner = c.get("lead", "\n        ") + inner + "\n      "
         ps.append({"attrs": [("begin", f"00:00:{i:02d}.000"), ("end", f"00:00:{i:02d}.900")], "inner": inner})
     doc = S.dfxp_doc([{"lang": "en", "ps": ps}], tt_lang="en")
     if _skip_known(case, rec, "dfxp"):
@@ -213,9 +225,31 @@ def _labels(case, rec):
                     rec.label(case["fmt"] + "-entity")
 
 
+def _wrap_at_tag_boundary(case):
+    """Input shape of the open finding: a source-line wrap with no blank before it that touches
+    a tag or comment boundary while text follows on the same caption line, or any wrap that
+    is all there is between two tags (the readers take the newline + indentation at the edge of
+    a text node for indentation and drop it)."""
+    for c in case["cues"]:
+        for l in c["lines"]:
+            runs, seps = l["runs"], l["seps"]
+            for i in range(len(runs) - 1):
+                left = runs[i].get("tag") or runs[i].get("comment")
+                right = runs[i + 1].get("tag")
+                if seps[i][:1] in ("\n", "\r") and (left or right):
+                    return True
+                # a white-space-only text node holding a wrap, between two tags / comments
+                if ("\n" in seps[i] or "\r" in seps[i]) and left and right:
+                    return True
+    return False
+
+
 def _skip_known(case, rec, fmt):
     """Input-shaped exclusions of open known findings (only active while listed as open)."""
     runs = [r for c in case["cues"] for l in c["lines"] for r in l["runs"]]
+    if fmt in ("dfxp", "sami") and rec.is_open(f"{fmt}-wrap-at-tag-boundary") and _wrap_at_tag_boundary(case):
+        rec.excluded_known(f"{fmt}-wrap-at-tag-boundary")
+        return True
     if fmt in ("dfxp", "sami") and rec.is_open(f"{fmt}-wrapped-text-lost") and any(r.get("wrapped") for r in runs):
         rec.excluded_known(f"{fmt}-wrapped-text-lost")
         return True
@@ -266,7 +300,10 @@ def sami_strategy(tier):
             lines = []
             for _ in range(draw(st.integers(1, 3))):
                 runs = draw(st.lists(run(), min_size=1, max_size=3))
-                seps = [draw(st.sampled_from(["", " ", " "])) for _ in runs]
+                # between runs: nothing, a blank, or a source-line wrap (with or without blanks /
+                # tabs before the line end) - all whitespace, displayed as one space
+                seps = [draw(st.sampled_from(["", " ", " ", "", " ", " ", "", " ", " ", "", " ", " ", "", " ", " ",
+                                              " \n      ", "\t\n\t", " \r\n    ", "\n      "])) for _ in runs]
                 lines.append({"runs": runs, "seps": seps})
             cues.append({"lines": lines, "br": draw(st.sampled_from(["<br>", "<br/>", "<BR>", "<br />", "<br/>\n    "]))})
         return {"fmt": "sami", "reuse": draw(st.integers(0, 3)) == 0, "cues": cues, "upper": draw(st.booleans()),
@@ -348,7 +385,8 @@ def webvtt_strategy(tier):
                 seps = [draw(st.sampled_from(["", " ", " "])) for _ in runs]
                 lines.append({"runs": runs, "seps": seps})
             cues.append({"lines": lines})
-        return {"fmt": "webvtt", "reuse": draw(st.integers(0, 3)) == 0, "cues": cues}
+        return {"fmt": "webvtt", "reuse": draw(st.integers(0, 3)) == 0, "cues": cues,
+                "eol": draw(st.sampled_from(["\n", "\n", "\r\n", "\r"]))}
     return build()
 
 
@@ -359,7 +397,7 @@ def check_webvtt(case, rec):
                      "settings": None, "lines": [_line_enc(l).strip() for l in c["lines"]]})
     if any("-->" in ln or not ln for c in cues for ln in c["lines"]):
         return
-    doc = S.webvtt_doc(cues)
+    doc = S.webvtt_doc(cues, eol=case.get("eol", "\n"))
     if _skip_known(case, rec, "webvtt"):
         return
     with must("WebVTTReader.read"):
@@ -381,7 +419,7 @@ def plain_strategy(tier):
                 t = draw(_authored(pipe=(fmt != "microdvd")))
                 lines.append({"runs": [{"text": t, "enc": t}], "seps": [""]})
             cues.append({"lines": lines})
-        return {"fmt": fmt, "reuse": draw(st.integers(0, 3)) == 0, "cues": cues, "eol": draw(st.sampled_from(["\n", "\n", "\r\n"]))}
+        return {"fmt": fmt, "reuse": draw(st.integers(0, 3)) == 0, "cues": cues, "eol": draw(st.sampled_from(["\n", "\n", "\r\n", "\r"]))}
     return build()
 
 
@@ -411,7 +449,7 @@ def build_doc(case):
         for i, c in enumerate(case["cues"]):
             inner = c["br"].join(_line_enc(l) for l in c["lines"])
             if c["pretty"]:
-                inner = "\n        " + inner + "\n      "
+                inner = c.get("lead", "\n        ") + inner + "\n      "
             ps.append({"attrs": [("begin", f"00:00:{i:02d}.000"), ("end", f"00:00:{i:02d}.900")], "inner": inner})
         return S.dfxp_doc([{"lang": "en", "ps": ps}], tt_lang="en"), DFXPReader
     if fmt == "sami":
@@ -424,7 +462,7 @@ def build_doc(case):
     if fmt == "webvtt":
         cues = [{"id": None, "start": f"00:{i:02d}.000", "end": f"00:{i:02d}.900", "settings": None,
                  "lines": [_line_enc(l).strip() for l in c["lines"]]} for i, c in enumerate(case["cues"])]
-        return S.webvtt_doc(cues), WebVTTReader
+        return S.webvtt_doc(cues, eol=case.get("eol", "\n")), WebVTTReader
     if fmt == "srt":
         cues = [(f"00:00:{i:02d},000", f"00:00:{i:02d},900", [_line_enc(l) for l in c["lines"]])
                 for i, c in enumerate(case["cues"])]
